@@ -62,7 +62,7 @@ def handle (_ : Unit) (line : String) : Unit × List String :=
     let progsS := ((kv rest "progs").getD "").splitOn "/"
     match progsS.mapM parseProg with
     | some progs =>
-      if ring != "0" || (kv rest "delays").getD "0" != "0" || (kv rest "rules").isSome || (kv rest "sps").isSome then ((), [s!"X {id} model=0 free=0 dep=0"]) else
+      if ring != "0" || (kv rest "delays").getD "0" != "0" || (kv rest "rules").isSome || (kv rest "sps").isSome || (kv rest "dly").isSome then ((), [s!"X {id} model=0 free=0 dep=0"]) else
       let mod := 2 ^ rsize
       let n := progs.length
       let asc := List.range n
